@@ -128,7 +128,9 @@ def coq_build(targets, timeout=1500):
         rc, out = sh([os.path.join(VERIF, "bin", "mkcoq.sh")], timeout=120)
         if rc != 0:
             return False, out
-        rc, out2 = sh(["make", "-j16", "-k"] + list(targets), cwd=COQ, timeout=timeout)
+        # every coqc call is bounded: a proof script that diverges must not stall the check
+        rc, out2 = sh(["make", "-j16", "-k", "COQC=timeout %d coqc" % int(os.environ.get("VERIF_COQC_TIMEOUT", "900"))]
+                      + list(targets), cwd=COQ, timeout=timeout)
         return rc == 0, out + out2
 
 
